@@ -38,6 +38,9 @@ def make_world(seed, collide):
         for ci, chrom in enumerate(w.chrom_order[1:]):
             world2.clone_gene(w, x, "X%d" % (ci + 2), chrom, x.start)
     world.add_standard_reads(w, per_transcript=6, jitter=2, hidden_cov=7, polya_frac=0.7)
+    if seed % 2 == 1:
+        # sequence names with dots (RefSeq / scaffold style): ids of the form transcript<N>.<chr>.<suffix> contain more dots then
+        world2.rename_chroms(w, {c: ("NC_00007%d.6", "GL45621%d.1", "KI27072%d.1")[i % 3] % i for i, c in enumerate(w.chrom_order)})
     id_map = {}
     exon_ids = {}
     if collide:
@@ -170,7 +173,7 @@ def run(chk, scratch):
     thorough = chk.tier == "thorough"
     chk.rule = ("CLI runs on 3-chromosome worlds with hidden (novel) isoforms; reference annotations with plain ids and with IsoQuant-style "
                 "transcript/gene/exon ids (numbers below and above what a fresh run allocates, other exon_id styles, exons without exon_id), "
-                "loci with identical coordinates on all chromosomes, annotation-free runs, threads 1 and 3; every id of both output GTFs judged + get_id call log. "
+                "loci with identical coordinates on all chromosomes, sequence names containing dots, annotation-free runs, threads 1 and 3; every id of both output GTFs judged + get_id call log. "
                 "non-trivial = distinct (run, exon) pairs printed at least twice")
     n_seeds = 10 if thorough else 2
     jobs = []
